@@ -51,6 +51,12 @@ func c16RuleText(c *core.Ctx, mask int) string {
 			mods = append(mods, m)
 		}
 	}
+	// A modifier may legally be written more than once; that is the same set.
+	if len(mods) > 0 && c.Rng.Intn(3) == 0 {
+		for i, n := 0, 1+c.Rng.Intn(2); i < n; i++ {
+			mods = append(mods, mods[c.Rng.Intn(len(mods))])
+		}
+	}
 	mods = util.Shuffle(c.Rng, mods)
 	text := "@@||example.org^"
 	if len(mods) > 0 {
@@ -140,16 +146,17 @@ func init() {
 	core.Register(&core.Prop{
 		ID:    "C16",
 		Level: "exploration",
-		Rule: "one case per subset of {elemhide,generichide,jsinject,document,urlblock,genericblock,content,extension,important} on an exception rule (all 512), " +
+		Rule: "one case per subset of {elemhide,generichide,jsinject,document,urlblock,genericblock,content,extension,important} on an exception rule (all 512, each in 8 (thorough 200) renderings; modifiers in PRNG order, one in three renderings repeats a modifier), " +
 			"each observed via NewMatchingResult, Engine.MatchRequest and GetCosmeticResult with no other rule, a plain blocking rule and an important blocking rule, " +
 			"plus the monotonicity check against every one-modifier superset; non-trivial = subset that contains a cosmetic-relevant modifier; distinct by subset",
 		Assumptions: []string{
 			"$document stands for elemhide+jsinject+urlblock+content+extension as documented in loadOption",
 			"an important blocking rule outranks a non-important exception (C06), in which case every option stays enabled",
 		},
-		Cases:      func(core.Tier) int { return 512 },
+		Cases:      func(t core.Tier) int { return 512 * map[core.Tier]int{core.Quick: 8, core.Thorough: 200}[t] },
 		Exhaustive: func(core.Tier) bool { return true },
-		Run: func(c *core.Ctx, mask int) {
+		Run: func(c *core.Ctx, idx int) {
+			mask := idx % 512
 			want := c16Expected(mask)
 			importantBit := 1 << 8
 			for _, other := range []string{"", "||example.org^", "||example.org^$important"} {
